@@ -15,14 +15,51 @@ def jobs(tier):
     J("date+part-of-day", "ob_datepod", ["ruleDatePOD", "rulePODDate"], "every valid date x 6 parts of day x both orders", "lift_datepod")
     J("dayname+date", "ob_dowdate", ["ruleDOWDate", "ruleDateDOW"], "every valid date x weekday x optional part of day x both orders")
     J("absorb-connector", "ob_absorb", ["ruleAbsorbOnTime"], "'at/um/am/on <time>': 5 shapes of the time value, all fields symbolic; value and span of the argument unchanged")
+    import sys
+    import ctparse.ctparse  # noqa
+    CC = sys.modules["ctparse.ctparse"]
+    out.append(Job("C20.COMPOSE-API", "vq.harness.h_api2", "ob_compose", timeout=3600, path_timeout=300,
+                   bounds="12 day expressions (absolute, relative, weekday, day of month, day+month; EN/DE) x 8 clock notations x {'', 'at', 'um'} x both orders x 3 reference times, max_stack_depth=0: "
+                          "the day the date part alone resolves to, at the clock part's hour and minute",
+                   functions=[fn_id(CC.ctparse)], stubs=["parser untraced; pool indices symbolic (solver covers every combination)"], site="ctparse"))
     return out
 
 
+def tok_lemmas():
+    from .. import toklemmas as T, e2
+    from ..spec import words as W
+    import z3
+    from ..rx.z3re import X, query
+    from ..core import Result, HOLDS, VIOLATED, INCONCLUSIVE
+    out = [e2.validate(200)]
+    pats, _ = e2.patterns()
+    x = X()
+    for w in W.CONNECT:
+        r, dt, _ = query([x == z3.StringVal(w), z3.InRe(x, pats[100].plain)], 20000, False)
+        out.append(Result("C20.CONNECT[{}]".format(w), "z3", HOLDS if r == "sat" else VIOLATED, seconds=dt, bounds="ground membership in the connector pattern (id 100)",
+                          detail="%r %s L(100)" % (w, "in" if r == "sat" else "NOT in"), functions=["pattern 100"], replay=None if r == "sat" else {"kernel": "reproduced"}))
+    return out
+
+
+def known_witnesses():
+    def beam():
+        from datetime import datetime
+        import sys
+        import ctparse.ctparse  # noqa
+        C = sys.modules["ctparse.ctparse"]
+        r = C.ctparse("3. april 2022 at half past 7", ts=datetime(2018, 3, 7, 12, 43), timeout=0).resolution
+        ok = (getattr(r, "year", None), getattr(r, "month", None), getattr(r, "day", None), getattr(r, "hour", None), getattr(r, "minute", None)) == (2022, 4, 3, 7, 30)
+        return None if ok else "'3. april 2022 at half past 7' (default max_stack_depth) -> %s" % (r,)
+    return {"beam-prunes-long-compose": beam}
+
+
 def run(tier, t0, only=None):
+    from ..core import known_lines_for
     js = [j for j in jobs(tier) if not only or only in j.name]
     res = run_jobs(js)
+    res += [r for r in tok_lemmas() if not only or only in r.name]
     return finish(
-        "C20", tier, res, t0,
+        "C20", tier, res, t0, known_lines=known_lines_for("C20", known_witnesses()),
         assumptions=["the day part alone resolves to the date value handed to the composition rule (C03-C05 contracts)", "arguments well formed (C02)"],
         explanation="COMPOSE: for every well-formed date-only value and every clock value (both orders, with the connector rule) the real composition rules return exactly "
                     "(date's year/month/day, clock's hour/minute); the day is never moved and the clock part never dropped. Connector words and cross-token extension: E2 lemmas.",
